@@ -24,6 +24,7 @@ type Case struct {
 	Before  int          `json:"before"`  // pass-through interceptors declared before WithRecover
 	Behind  int          `json:"behind"`  // pass-through interceptors declared after WithRecover
 	Returns prog.ErrSpec `json:"returns"` // what the recovery function returns
+	Warmups int          `json:"warmups"` // non-panicking calls through the SAME handler before the call under test
 }
 
 type passthrough struct{ connect.Interceptor }
@@ -128,6 +129,21 @@ func run(c Case, withRecover bool) (*prog.CResult, *memnet.Exchange, []recCall) 
 	}
 	ctx, cancel := context.WithCancel(context.Background())
 	defer cancel()
+	for i := 0; i < c.Warmups; i++ {
+		wp := *cp
+		wp.Header = []prog.KV{{K: "X-Verif-No-Panic", V: "1"}}
+		_ = prog.RunClient(ctx, mem, c.Cfg, &wp, nil)
+		if ex := mem.Last(); ex != nil {
+			<-ex.HandlerDone()
+		}
+	}
+	mu.Lock()
+	warmCalls := len(calls)
+	calls = nil
+	mu.Unlock()
+	if warmCalls != 0 {
+		return &prog.CResult{}, nil, []recCall{{value: "recovery function called during a non-panicking warm-up call"}, {}}
+	}
 	res := prog.RunClient(ctx, mem, c.Cfg, cp, cancel)
 	ex := mem.Last()
 	if ex != nil {
@@ -167,7 +183,10 @@ func check(tt *testing.T, c Case) (pbt.Info, error) {
 		}
 		return info, nil
 	}
-	info.NonTrivial = c.After > 0 || c.Panic == "nil" || c.Panic == "abort" || c.Before > 0
+	info.NonTrivial = c.After > 0 || c.Panic == "nil" || c.Panic == "abort" || c.Before > 0 || c.Warmups > 0
+	if c.Warmups > 0 {
+		info.Label("after-non-panicking-calls-on-same-handler")
+	}
 	if c.After > 0 {
 		info.Label("panic-after-progress")
 	}
@@ -238,6 +257,7 @@ func gen(t *rapid.T) Case {
 		c.After = rapid.IntRange(0, 3).Draw(t, "after")
 		c.More = rapid.IntRange(0, 2).Draw(t, "more")
 	}
+	c.Warmups = rapid.SampledFrom([]int{0, 0, 1, 2}).Draw(t, "warmups")
 	c.Before = rapid.IntRange(0, 2).Draw(t, "before")
 	c.Behind = rapid.IntRange(0, 2).Draw(t, "behind")
 	if rapid.IntRange(0, 3).Draw(t, "plainret") == 0 {
@@ -256,7 +276,7 @@ func gen(t *rapid.T) Case {
 
 var spec = pbt.Spec[Case]{
 	Prop: "C19", Name: "recover", Gen: gen, Check: check,
-	Rule: "rapid-generated panic value (nil, error, *connect.Error, string, int, struct, pointer, runtime error, http.ErrAbortHandler, an error wrapping it) or a no-panic control × 4 RPC kinds × 3 protocols × 2 codecs × panic point (before any receive, after i receives, after j sends, with further sends scheduled) × position of WithRecover among 0..4 pass-through interceptors × what the recovery function returns (coded error with details/metadata, plain error); oracle: called exactly once with the value a plain deferred recover() yields for the same panic in the same binary (differential against the Go runtime, so both panicnil modes are covered), client receives exactly the returned error after the messages already sent, the abort sentinel is re-raised identically without calling the function, and a non-panicking exchange is byte-identical to the same handler without WithRecover; non-trivial = progress before the panic OR nil/abort value OR interceptors outside the recover interceptor",
+	Rule: "rapid-generated panic value (nil, error, *connect.Error, string, int, struct, pointer, runtime error, http.ErrAbortHandler, an error wrapping it) or a no-panic control × 4 RPC kinds × 3 protocols × 2 codecs × panic point (before any receive, after i receives, after j sends, with further sends scheduled) × position of WithRecover among 0..4 pass-through interceptors × what the recovery function returns (coded error with details/metadata, plain error) × 0..2 non-panicking calls through the same handler first; oracle: called exactly once with the value a plain deferred recover() yields for the same panic in the same binary (differential against the Go runtime, so both panicnil modes are covered), client receives exactly the returned error after the messages already sent, the abort sentinel is re-raised identically without calling the function, and a non-panicking exchange is byte-identical to the same handler without WithRecover; non-trivial = progress before the panic OR nil/abort value OR interceptors outside the recover interceptor",
 }
 
 func TestRecover(t *testing.T) { pbt.Run(t, spec) }
